@@ -246,7 +246,8 @@ PLANS['C13'] = dict(
                         'roundtrips[class-provides:provider]': 20, 'roundtrips[instance-provides:nolonger]': 10,
                         'roundtrips[class-spec:legacy_attr]': 10, 'roundtrips[builtin-spec:only]': 10,
                         'roundtrips[class-provides-history:also]': 20, 'roundtrips[class-provides-history:nolonger]': 20,
-                        'roundtrips[class-provides-history:provider+also_twice]': 5},
+                        'roundtrips[class-provides-history:provider+also_twice]': 5,
+                        'classes_narrowed_after_instance_declarations': 20},
     rule='Generated module files (interfaces with sentinel attribute names/docstrings; classes in every declaration shape: '
          'plain, decorated, implementer_only, classImplementsOnly after the fact, classImplementsFirst, narrowed-then-extended, '
          'provider, old-style __implemented__ attribute; built-in / extension types declared with classImplementsOnly) imported under unique names; every interface, class specification, class provides-declaration, instance '
